@@ -22,7 +22,7 @@ from ..tlc import MachineryError, read_emitted, run_tlc, workdir
 DATA = {"x": [1.0, 2.0, 3.0], "z": [4.0, 5.0, 6.0], "I": [50.0, 60.0, 70.0], "q": [2.0, 2.0, 5.0]}
 COLNAME = {"x": "x", "z": "z", "I": "I", "q": "x y"}
 # "q" stands for any column whose name must be quoted: with a blank, a python keyword, a leading digit, a python constant, a dot
-QSPELLINGS = ["x y", "class", "1a", "None", "p.q"]
+QSPELLINGS = ["x y", "class", "1a", "None", "p.q", "log.q"]
 BYKEY = {}
 
 
